@@ -6,12 +6,12 @@ from vf import universe as U
 from vf import universe_b  # noqa: F401  (registers group B zones)
 from vf.prng import mix
 
-GROUP_B = ("Z5",)
+GROUP_B = ("Z5", "Z6")
 
 QUICK = {"Z2": 24000, "Z3": 5000, "Z4": 5000, "Z5": 12000}
 
 
-def plan_docs(tier, seed, complete=False, quick=None, zones=("Z1", "Z2", "Z3", "Z4", "Z5"), z1_all=True, limit=None, check=None):
+def plan_docs(tier, seed, complete=False, quick=None, zones=("Z1", "Z2", "Z3", "Z4", "Z5", "Z6"), z1_all=True, limit=None, check=None):
     quick = quick or QUICK
     items = []
     zinfo = {}
@@ -23,7 +23,7 @@ def plan_docs(tier, seed, complete=False, quick=None, zones=("Z1", "Z2", "Z3", "
         n = U.size(z)
         if limit and z in limit:
             n = min(n, limit[z])
-        if complete or tier == "thorough" or (z == "Z1" and z1_all):
+        if complete or tier == "thorough" or (z == "Z1" and z1_all) or z == "Z6":
             idx = range(n)
         else:
             idx = U.pick(z, seed, quick.get(z, 2000), 0, n)
